@@ -85,6 +85,7 @@ def do_eval(ids, tier_first="quick", suite=True):
             meta["check_quick"] = {"result": {0: "MISSED", 1: "caught", 2: "harness-error"}.get(rc, f"rc={rc}"), "wall_s": wall,
                                    "subchecks": sorted({v.split(":")[0].replace("violation in ", "") for v in viol if v.startswith("violation in")})}
             ran.append(f"VERIF_REPO=<scratch> vf.run {pid} --tier {tier_first}: rc={rc} in {wall}s")
+            meta.pop("check_thorough", None)
             if rc == 0:
                 rc2, wall2, viol2, out2 = run_check(pid, repo, "thorough", timeout=3600)
                 meta["check_thorough"] = {"result": {0: "MISSED", 1: "caught", 2: "harness-error"}.get(rc2, f"rc={rc2}"), "wall_s": wall2,
